@@ -11,7 +11,8 @@ kproof! {
         kani::assume(n <= 2);
         let a: u32 = kani::any();
         let b: u32 = kani::any();
-        kani::assume(a < (1 << 30) && b < (1 << 30));
+        // parse_idat never records a zero-length chunk (asserted by k01e): 0 is the list terminator
+        kani::assume(a >= 1 && b >= 1 && a < (1 << 30) && b < (1 << 30));
         let mut sizes: Vec<u32> = Vec::new();
         if n >= 1 { sizes.push(a); }
         if n >= 2 { sizes.push(b); }
@@ -31,42 +32,90 @@ kproof! {
         if n >= 2 { assert!(back.chunk_sizes[1] == b); }
         assert!(back.zlib_header == idat.zlib_header && back.addler32 == idat.addler32);
         assert!(s.is_empty());
-        kani::cover!(n == 2 && a == 0, "zero-length first chunk");
+        kani::cover!(n == 2 && a == 1, "one-byte first chunk");
         kani::cover!(n == 2 && a > 300 && b > 70000, "multi-byte varints");
         core::mem::forget(back); core::mem::forget(idat);
     }
 }
 
-/// parse_idat on every input of exactly N bytes: total, postcondition, and parse -> recreate identity
-fn idat_total<const N: usize>() {
-    let data: [u8; N] = kani::any();
-    let n: usize = kani::any();
-    kani::assume(n <= N);
+/// parse_idat on inputs of a CONCRETE chunk layout (length fields concrete, everything else symbolic):
+/// total, postcondition, and parse -> recreate identity.  L2 == 255 means "no second chunk"; T = trailing bytes.
+/// (Symbolic length fields make every Vec operation symbolic-sized: 30 GB were not enough for 21 bytes.)
+fn idat_shape<const L1: usize, const L2: usize, const T: usize>() -> bool { idat_shape_x::<L1, L2, T, true>() }
+fn idat_shape_x<const L1: usize, const L2: usize, const T: usize, const RECREATE: bool>() -> bool {
+    const MAXN: usize = 44;
+    let mut data: [u8; MAXN] = kani::any();
+    let mut p = 0usize;
+    data[p] = 0; data[p + 1] = 0; data[p + 2] = 0; data[p + 3] = L1 as u8;
+    data[p + 4] = b'I'; data[p + 5] = b'D'; data[p + 6] = b'A'; data[p + 7] = b'T';
+    p += 12 + L1;
+    if L2 != 255 {
+        data[p] = 0; data[p + 1] = 0; data[p + 2] = 0; data[p + 3] = L2 as u8;
+        data[p + 4] = b'I'; data[p + 5] = b'D'; data[p + 6] = b'A'; data[p + 7] = b'T';
+        p += 12 + L2;
+    }
+    let n = p + T;
+    assert!(n <= MAXN);
     let r = parse_idat(&data[..n], 0);
+    let ok = r.is_ok();
+    kani::cover!(!ok, "rejected (CRC mismatch or too short)");
     if let Ok((idat, payload)) = &r {
         assert!(idat.total_chunk_length >= 12 && idat.total_chunk_length <= n, "total_chunk_length outside the input");
-        let mut out: Vec<u8> = Vec::new();
+        let mut i = 0;
+        while i < 3 { if i < idat.chunk_sizes.len() { assert!(idat.chunk_sizes[i] >= 1, "zero-length chunk recorded (collides with the size-list terminator)"); } i += 1; }
+        // what the scanner / container rely on
+        let mut sum = 0usize;
+        let mut i = 0;
+        while i < 3 { if i < idat.chunk_sizes.len() { sum += idat.chunk_sizes[i] as usize; } i += 1; }
+        assert!(idat.chunk_sizes.len() >= 1 && idat.chunk_sizes.len() <= 2);
+        assert!(idat.total_chunk_length == sum + 12 * idat.chunk_sizes.len(), "total_chunk_length is not the sum of the chunks");
+        assert!(payload.len() + 6 == sum, "payload is not the chunk data minus zlib header and Adler-32");
+        if !RECREATE { core::mem::forget(r); return ok; }
+        let mut out: Vec<u8> = Vec::with_capacity(MAXN);
         let rr = recreate_idat(idat, &payload[..], &mut out);
         assert!(rr.is_ok(), "recreate_idat rejects what parse_idat produced");
         assert!(out.len() == idat.total_chunk_length);
         let mut i = 0;
-        while i < N {
+        while i < MAXN {
             if i < out.len() { assert!(out[i] == data[i], "recreated IDAT bytes differ"); }
             i += 1;
         }
         core::mem::forget(out);
     }
-    kani::cover!(r.is_ok(), "accepted");
-    kani::cover!(matches!(&r, Ok((i, _)) if i.chunk_sizes.len() == 2), "two chunks accepted");
     core::mem::forget(r);
+    ok
 }
-kproof! {
-    /// K01e: all inputs of <= 27 bytes.  The checksum function is replaced by a cheap byte mixer
-    /// (its value is not the subject; both parse_idat and recreate_idat call the same function).
+macro_rules! cheap_crc { ($(#[$m:meta])* fn $n:ident() $b:block) => { kproof! {
+    $(#[$m])*
     #[kani::stub(crc32fast::Hasher::update, crc32fast::Hasher::update_cheap)]
-    fn k01e_idat_total_27() { idat_total::<27>(); }
+    fn $n() $b
+} } }
+cheap_crc! {
+    /// K01e-1: one chunk of 6 / 9 / 7 payload bytes, nothing / 8 / 20 bytes behind it
+    fn k01e_idat_one_chunk() { { let ok = idat_shape_x::<7, 255, 0, false>(); kani::cover!(ok, "accepted"); } }
+}
+cheap_crc! {
+    fn k01e_idat_one_chunk_tail() { { let ok = idat_shape_x::<6, 255, 8, false>(); kani::cover!(ok, "accepted"); } { let ok = idat_shape_x::<9, 255, 20, false>(); kani::cover!(ok, "accepted"); } }
+}
+cheap_crc! {
+    /// K01e-2: 1..11 bytes after the last chunk (shorter than a chunk header)
+    fn k01e_idat_short_tail() { { let ok = idat_shape_x::<6, 255, 1, false>(); kani::cover!(ok, "accepted"); } { let ok = idat_shape_x::<7, 255, 7, false>(); kani::cover!(ok, "accepted"); } }
+}
+cheap_crc! {
+    fn k01e_idat_short_tail2() { { let ok = idat_shape_x::<6, 255, 4, false>(); kani::cover!(ok, "accepted"); } { let ok = idat_shape_x::<6, 255, 11, false>(); kani::cover!(ok, "accepted"); } }
+}
+cheap_crc! {
+    /// K01e-3: payloads shorter than a zlib stream's fixed parts (2 header + 4 Adler-32 bytes)
+    fn k01e_idat_tiny_payload() { { let ok = idat_shape::<1, 255, 0>(); assert!(!ok, "a payload shorter than zlib header + Adler-32 was accepted"); } { let ok = idat_shape::<3, 255, 0>(); assert!(!ok, "a payload shorter than zlib header + Adler-32 was accepted"); } { let ok = idat_shape::<4, 255, 0>(); assert!(!ok, "a payload shorter than zlib header + Adler-32 was accepted"); } { let ok = idat_shape::<5, 255, 0>(); assert!(!ok, "a payload shorter than zlib header + Adler-32 was accepted"); } }
+}
+cheap_crc! {
+    /// K01e-4: two chunks (incl. a zero-length second chunk, and a payload split inside the Adler-32)
+    fn k01e_idat_recreate() { { let ok = idat_shape::<7, 255, 0>(); kani::cover!(ok, "accepted"); } }
+}
+cheap_crc! {
+    fn k01e_idat_two_chunks2() { { let ok = idat_shape_x::<6, 0, 0, false>(); kani::cover!(ok, "accepted"); } { let ok = idat_shape_x::<4, 3, 0, false>(); kani::cover!(ok, "accepted"); } }
 }
 kproof! {
-    /// K01e': one chunk with the real (bit-serial) CRC-32, <= 20 bytes
-    fn k01e_idat_total_20_crc() { idat_total::<20>(); }
+    /// K01e-crc: one chunk with the real (bit-serial) CRC-32
+    fn k01e_idat_real_crc() { { let ok = idat_shape::<6, 255, 0>(); kani::cover!(ok, "accepted"); } }
 }
